@@ -482,6 +482,12 @@ def run_world(case, is_async):
             result = _result_of(ans)
         except netsim.SimDeadlock:
             result = ("hang",)
+        except dns.resolver.NXDOMAIN as e:
+            # what the exception tells the caller: the names tried, in order, and a response for each
+            result = ("exc", "NXDOMAIN", tuple(n.to_text() for n in e.qnames()), tuple(sorted(k.to_text() for k in e.responses().keys())))
+        except (dns.resolver.NoNameservers, dns.resolver.LifetimeTimeout) as e:
+            errs = e.kwargs.get("errors") or []
+            result = ("exc", type(e).__name__, tuple((x[0], bool(x[1]), x[2], type(x[3]).__name__) for x in errs))
         except dns.exception.DNSException as e:
             result = ("exc", type(e).__name__)
         except Exception as e:  # noqa: BLE001
@@ -579,6 +585,7 @@ def model_run(case, res_states=None):
         lifetime = cfg["lifetime"] if res["lifetime"] is None else res["lifetime"]
         result = None
         cands = candidates(cfg, res)
+        cand_start = 0
         if len(cands) >= 3:
             probes.append("three_or_more_candidates")
         nx_count = 0
@@ -600,6 +607,7 @@ def model_run(case, res_states=None):
 
         try:
             for ci, cand in enumerate(cands):
+                cand_start = len(trace)
                 # cache
                 hit = cache_get((cand.lower(), rdtype, cls))
                 if hit is not None:
@@ -727,7 +735,8 @@ def model_run(case, res_states=None):
                 result = ("exc", "NXDOMAIN")
         except _MExc as e:
             result = ("exc", e.name)
-        out.append({"trace": trace, "result": result, "end": round(now - t0, 6), "now": now, "cache": None if cache is None else dict(cache)})
+        out.append({"trace": trace, "result": result, "end": round(now - t0, 6), "now": now, "cache": None if cache is None else dict(cache),
+                    "cands": cands, "errs": [(q[1], q[3]) for q in trace[cand_start:]]})
     return out, probes, states
 
 
@@ -778,8 +787,17 @@ def compare_with_model(case, real, model, world_name):
             )
         rr, mr = r["result"], m["result"]
         if mr[0] == "exc":
-            if rr != ("exc", mr[1]):
+            if rr[:2] != ("exc", mr[1]):
                 raise Violation("C16:wrong-result", f"{tag}: real {rr}, documented outcome is {mr[1]}")
+            if mr[1] == "NXDOMAIN":
+                want_q = tuple(_d.name.from_text(c).to_text() for c in m["cands"])
+                if tuple(x.lower() for x in rr[2]) != tuple(x.lower() for x in want_q) or sorted(x.lower() for x in rr[3]) != sorted(set(x.lower() for x in want_q)):
+                    raise Violation("C16:exception-content", f"{tag}: NXDOMAIN reports qnames {rr[2]} with responses for {rr[3]}; the candidate names were {want_q}")
+            elif mr[1] in ("NoNameservers", "LifetimeTimeout"):
+                got_e = [(x[0], x[1]) for x in rr[2]]
+                want_e = [(f"ns{i}", t) for i, t in m["errs"]]
+                if got_e != want_e or any(x[2] != 53 for x in rr[2]):
+                    raise Violation("C16:exception-content", f"{tag}: {mr[1]} lists the failed attempts {rr[2]}; the attempts on the last candidate name were {want_e}")
         else:
             ans = mr[1]
             if rr[0] != "answer":
